@@ -337,6 +337,13 @@ func collectPackages(parentDir string, alreadyCollected map[string]*PackageInfo,
 		return parentInfo, validation.NewValidationError(fmt.Errorf("import cycle detected"), parentInfo.FilePath)
 	}
 
+	// The depth limit applies to every import path, so it is checked before the
+	// already-collected shortcut; otherwise the verdict would depend on whether a
+	// shorter path to the same package happened to be listed first.
+	if depthRemaining <= 0 {
+		return parentInfo, validation.NewValidationError(errors.New("reached maximum number of recursive imports"), parentInfo.FilePath)
+	}
+
 	if collected, found := alreadyCollected[parentInfo.Namespace]; found {
 		if collected.FilePath != parentInfo.FilePath {
 			return collected, validation.NewValidationError(fmt.Errorf("namespace '%s' conflicts with '%s'", parentInfo.Namespace, collected.FilePath), parentInfo.FilePath)
@@ -346,10 +353,6 @@ func collectPackages(parentDir string, alreadyCollected map[string]*PackageInfo,
 	}
 
 	alreadyCollected[parentInfo.Namespace] = parentInfo
-
-	if depthRemaining <= 0 {
-		return parentInfo, validation.NewValidationError(errors.New("reached maximum number of recursive imports"), parentInfo.FilePath)
-	}
 
 	log.Info().Msgf("Collecting imports for %v", parentInfo.PackageDir())
 	var importUrls []string
